@@ -136,6 +136,14 @@ async fn send_fragmented(
     let before: Vec<usize> = links.iter().map(|l| l.log.borrow().received.len()).collect();
     let total = pieces.len();
     let contradict_at = if contradiction != Contradiction::None && total > 1 { 1 + choice(total as u32 - 1) as usize } else { usize::MAX };
+    // a delivery the sender marks as resumed (every frame carries resume=true, as this crate's own
+    // frame encoder writes it): reassembled like any other
+    // (not together with a contradictory frame: a resuming final frame with another delivery-tag is
+    // read by the crate as a delivery of its own, which is a reading of the resume flag, not a splice)
+    let resumed = choice(5) == 0 && contradiction == Contradiction::None;
+    if resumed && total > 1 {
+        sim::probe("multi-frame-delivery-marked-resumed");
+    }
     for (i, piece) in pieces.iter().enumerate() {
         let first = i == 0;
         let last = i + 1 == total;
@@ -148,6 +156,7 @@ async fn send_fragmented(
             settled: if first { Some(!settled_late && choice(2) == 1) } else if last && settled_late { Some(true) } else { None },
             more: if last && !aborted { if choice(3) == 1 { Some(false) } else { None } } else { Some(true) },
             aborted: if aborted { Some(true) } else { None },
+            resume: if resumed { Some(true) } else { None },
             ..Default::default()
         };
         if i == contradict_at {
@@ -320,7 +329,10 @@ pub async fn run_client() {
     // a delivery takes one credit however many frames carry it: with a credit of 1 (topped up
     // after every disposal) a fragmented delivery must get through like a single-frame one
     let credit = if accept { pick(&[100u32, 100, 1, 2]) } else { 100 };
-    sim::set_config(format!("side=client links={} accept={} illegal-variant={} peer-max-frame-size={} credit=Auto({}) {}", nlinks, accept, illegal, peer_mfs, credit, nd));
+    // the receiver settles second: its dispositions are not settled (the scripted sender settles
+    // nothing); reassembly is the same
+    let rcv_second = credit == 100 && choice(3) == 0;
+    sim::set_config(format!("side=client links={} accept={} illegal-variant={} peer-max-frame-size={} credit=Auto({}) rcv-second={} {}", nlinks, accept, illegal, peer_mfs, credit, rcv_second, nd));
     sim::mark_nontrivial();
     let cvp = match peer::client_vs_peer(&ccfg, peer::open("peer", Some(peer_mfs), Some(255), None), nab, nba, Models::none()).await {
         Some(x) => x,
@@ -353,11 +365,16 @@ pub async fn run_client() {
                 .name(name.clone())
                 .source("q")
                 .credit_mode(CreditMode::Auto(credit))
+                .receiver_settle_mode(if rcv_second { fe2o3_amqp::types::definitions::ReceiverSettleMode::Second } else { fe2o3_amqp::types::definitions::ReceiverSettleMode::First })
                 .attach(&mut session),
         );
         let peer_att = async {
             let _a = peer.expect(wire::ATTACH).await?;
             let mut args = AttachArgs::sender(&name, peer_handle);
+            if rcv_second {
+                args.rcv_settle_mode = Some(1);
+                sim::probe("receiver-settles-second");
+            }
             args.initial_delivery_count = Some(pick(&[0u32, u32::MAX]));
             peer.send(ps.channel, &peer::attach(&args)).await;
             Some(())
@@ -393,7 +410,8 @@ pub async fn run_listener() {
     let lcfg = EndpointCfg::default_cfg();
     let (nab, nba, nd) = world::draw_net(true);
     let peer_mfs = pick(&[65536u32, 512, 1024]);
-    sim::set_config(format!("side=listener links={} accept={} illegal-variant={} peer-max-frame-size={} {}", nlinks, accept, illegal, peer_mfs, nd));
+    let rcv_second = choice(3) == 0;
+    sim::set_config(format!("side=listener links={} accept={} illegal-variant={} peer-max-frame-size={} rcv-second={} {}", nlinks, accept, illegal, peer_mfs, rcv_second, nd));
     sim::mark_nontrivial();
     let pvl = match peer::peer_vs_listener(&lcfg, peer::open("peer", Some(peer_mfs), Some(255), None), nab, nba, Models::none()).await {
         Some(x) => x,
@@ -452,10 +470,20 @@ pub async fn run_listener() {
         let peer_handle = [0u32, 9][i];
         let mut args = AttachArgs::sender(&format!("lrcv-{}", i), peer_handle);
         args.initial_delivery_count = Some(pick(&[0u32, 1000]));
+        if rcv_second {
+            args.rcv_settle_mode = Some(1);
+        }
         peer.send(ps.channel, &peer::attach(&args)).await;
-        if peer.expect(wire::ATTACH).await.is_none() {
-            sim::violation("attach-failed", "listener did not answer attach".into());
-            return;
+        match peer.expect(wire::ATTACH).await {
+            None => {
+                sim::violation("attach-failed", "listener did not answer attach".into());
+                return;
+            }
+            Some(a) => {
+                if rcv_second && a.perf.as_ref().unwrap().field(4).as_u64() == Some(1) {
+                    sim::probe("receiver-settles-second");
+                }
+            }
         }
         links.push(Link { peer_handle, log: logs[i].clone(), sent: Vec::new() });
     }
